@@ -109,6 +109,9 @@ def cases_tail():
             out.append((["x25519_dh %s %s" % (H(a), H(pb)), "x25519_dh %s %s" % (H(b), H(pa))], [obs_of(sh), obs_of(sh)], None))
     out.append((["x25519_iter %s %s 1" % (H(curve.BASE_U), H(curve.BASE_U))], ["422c8e7a6227d7bca1350b3e2bb7279f7897b87bb6854b783c60e80311ae3079"], None))
     out.append((["x25519_iter %s %s 1000" % (H(curve.BASE_U), H(curve.BASE_U))], ["684cf59ba83309552800ef566f2f4d3c1c3887c49360e3875f2eb94d99532c51"], None))
+    for b in (bytes(32), b"\xff" * 32, pat(5, 0, 32), pat(6, 1, 32)):
+        h = b.hex()
+        out.append((["x25519_views %s" % H(b)], ["%s.%s.%s.TF.%s" % (h, h, h, h)], None))
     for n, e in ((0, "FFF"), (31, "FFF"), (32, "TTT"), (33, "FFF")):
         out.append((["x25519_tryfrom %s" % (P(5, 0, n) if n else "h:")], [e], None))
     return out
